@@ -1,12 +1,14 @@
 //! vcheck: one sub-command per property.
 
 mod util;
+mod c01;
 mod c13;
 mod c14;
 mod c20;
 
 fn main() {
     vcore::main_for(|id| match id {
+        "C01" => Some(c01::check()),
         "C13" => Some(c13::check()),
         "C14" => Some(c14::check()),
         "C20" => Some(c20::check()),
